@@ -428,6 +428,7 @@ func catalogue() []*cat {
 	theCatalogue = append(theCatalogue, catalogue2()...)
 	theCatalogue = append(theCatalogue, catalogueAny()...)
 	theCatalogue = append(theCatalogue, catalogueConv()...)
+	theCatalogue = append(theCatalogue, catalogueEmbed()...)
 	return theCatalogue
 }
 
